@@ -18,6 +18,7 @@ R-GUARD-EXISTS).
 from __future__ import annotations
 
 import ast
+import re
 from dataclasses import dataclass, field
 
 from .core import (AnalysisError, FuncInfo, Program, call_name, dotted, norm)
@@ -78,9 +79,12 @@ class Walker:
         self.stack: list[str] = []
         self.raise_sites: list[tuple[str, str, frozenset]] = []
         self.unmodelled: list[str] = []
+        self.root_params: set[str] = set()
 
     # ------------------------------------------------------------------
     def run(self, fi: FuncInfo, param_facts=()) -> list[Exit]:
+        self.root_params = set(fi.params()[1:]) if fi.cls is not None \
+            else set(fi.params())
         st = State(frozenset(param_facts))
         exits: list[Exit] = []
         end = self.func(fi, st, {}, exits)
@@ -199,6 +203,14 @@ class Ctx:
         return out
 
     # -- raising / writing -------------------------------------------------
+    def from_request(self, key: ast.AST, st: State) -> bool:
+        """Does the key derive from a parameter of the analysed mutator (the
+        request)?  Keys drawn from the graph's own containers are consistent
+        by the representation invariants and cannot make a lookup fail."""
+        k = self.canon(key, st)
+        words = set(re.findall(r"[A-Za-z_][A-Za-z_0-9]*", k))
+        return bool(words & self.w.root_params)
+
     def may_raise(self, node: ast.AST, st: State, what: str) -> None:
         site = f"{self.fi.short}: {norm(node, 100)} [{what}]"
         self.w.raise_sites.append((site, self.fi.loc(node), st.facts))
@@ -515,7 +527,8 @@ class Ctx:
             slot = self.slot_of(t.value)
             if slot:
                 if not self.key_valid(slot, t.slice, st) and \
-                        slot not in self.w.autoviv:
+                        slot not in self.w.autoviv and \
+                        self.from_request(t.slice, st):
                     self.may_raise(stmt, st, f"KeyError from del {slot}[...]")
                 elif not self.key_valid(slot, t.slice, st):
                     pass
@@ -569,7 +582,8 @@ class Ctx:
                     if not self.key_valid(slot, e.slice, st):
                         st = self.wrote(e, st)       # auto-vivification
                 else:
-                    if not self.key_valid(slot, e.slice, st):
+                    if not self.key_valid(slot, e.slice, st) and \
+                            self.from_request(e.slice, st):
                         self.may_raise(e, st, f"KeyError from {slot}[...]")
                     st = st.with_facts(*self.facts_for_key(slot, e.slice, st))
             elif norm(e.value) == "PERIODIC_TABLE":
@@ -624,10 +638,12 @@ class Ctx:
                 slot = self.slot_of(recv)
                 if meth in ("pop",) and slot and len(e.args) == 1 and \
                         not self.key_valid(slot, e.args[0], st) and \
-                        slot not in self.w.autoviv:
+                        slot not in self.w.autoviv and \
+                        self.from_request(e.args[0], st):
                     self.may_raise(e, st, f"KeyError from {slot}.pop(k)")
                 if meth in ("pop", "remove") and not slot and len(e.args) == 1 \
-                        and meth in WRITE_METHODS:
+                        and meth in WRITE_METHODS and self.from_request(
+                            e.args[0], st):
                     # inner container .pop(k)/.remove(k): raises if absent
                     self.may_raise(e, st, f"KeyError from .{meth}(k)")
                 if meth in WRITE_METHODS:
